@@ -366,6 +366,8 @@ func vsReplay(idx int, ids []string, expiredIds []string, hist []vsStep) (status
 		vhViol(key, fmt.Sprintf("step %d (%s %s %s): %s", n, hist[n].Op, hist[n].Id, hist[n].Part, desc), r)
 	}
 	var pendingCrash *vsStep
+	completed := false            // the operation that was to be killed returned success without ever reaching the point where it writes
+	var lastObs map[string]vsProj // the map as observed after the previous step
 	for n := range hist {
 		s := hist[n]
 		var opErr error
@@ -459,7 +461,8 @@ func vsReplay(idx int, ids []string, expiredIds []string, hist []vsStep) (status
 				viol(n, "store/"+op+"/error", "operation returned an error: "+strings.TrimSpace(out), nil)
 				return "viol"
 			}
-			if rc != 3 {
+			completed = rc == 0
+			if rc != 3 && rc != 0 {
 				vhEmit(vhRec{"k": "infra", "v": fmt.Sprintf("crash point %s not reached in child (rc=%d): %s", point, rc, out)})
 				return "infra"
 			}
@@ -483,6 +486,13 @@ func vsReplay(idx int, ids []string, expiredIds []string, hist []vsStep) (status
 			viol(n, key, problem, nil)
 			return "viol"
 		}
+		if pendingCrash != nil && completed && lastObs != nil && obs[pendingCrash.Id].key() == lastObs[pendingCrash.Id].key() {
+			// an operation that writes (the model says so) came back with success, but without passing the point at which the index
+			// entry is written - and the map does not show it
+			viol(n, "store/"+pendingCrash.Op+"/acknowledged-not-recorded",
+				fmt.Sprintf("%s of %s %s returned success without writing the index entry; record is %+v as before", pendingCrash.Op, pendingCrash.Id, pendingCrash.Part, obs[pendingCrash.Id]), nil)
+			return "viol"
+		}
 		if pendingCrash != nil {
 			// after the restart: the killed operation took effect or not; everything else untouched
 			for id, allowed := range pendingCrash.Exp {
@@ -503,6 +513,7 @@ func vsReplay(idx int, ids []string, expiredIds []string, hist []vsStep) (status
 				}
 			}
 			pendingCrash = nil
+			lastObs = obs
 			// TLC continued with one of the two outcomes; if reality took the other one this history ends here (the twin covers it)
 			for id, allowed := range s.Exp {
 				if len(allowed) != 1 || allowed[0].key() != obs[id].key() {
@@ -525,6 +536,7 @@ func vsReplay(idx int, ids []string, expiredIds []string, hist []vsStep) (status
 				return "viol"
 			}
 		}
+		lastObs = obs
 	}
 	return "ok"
 }
